@@ -355,7 +355,7 @@ unsigned FilePersister::find_nearest_highest_seqnum (const unsigned requested, c
 {
 	if (last)
 	{
-		for (unsigned startseqnum(requested); startseqnum <= last; ++startseqnum)
+		for (unsigned startseqnum(requested ? requested : 1); startseqnum <= last; ++startseqnum) // 0 is the control record
 		{
 			Index::const_iterator itr(_index.find(startseqnum));
 			if (itr != _index.end())
